@@ -131,14 +131,14 @@ class Gen:
         return ["mat %s %d %d %d" % (fmt, m, n, len(idx)), " ".join(map(str, ptr)), " ".join(map(str, idx)), " ".join(vals)]
 
     @staticmethod
-    def rhs_lines(B, m, nrhs, ldb, cplx):
-        """B: list of columns of (re,im); padding rows get a sentinel"""
+    def rhs_lines(B, m, nrhs, ldb, cplx, ldx=None):
+        """B: list of columns of (re,im); padding rows get a sentinel; ldx: leading dimension of X (default: ldb)"""
         vals = []
         for k in range(nrhs):
             for i in range(ldb):
                 v = B[k][i] if i < m else (77.0, -77.0)
                 vals.append(hx(v[0]) + ((" " + hx(v[1])) if cplx else ""))
-        return ["rhs %d %d" % (nrhs, ldb), " ".join(vals)]
+        return ["rhs %d %d" % (nrhs, ldb) + ("" if ldx is None else " %d" % ldx), " ".join(vals)]
 
     def tune(self, small=True):
         r = self.r
